@@ -87,12 +87,15 @@ def class_names(prefix: str, n: int) -> list[str]:
     return [f"{prefix}x{i}" for i in range(1, n + 1)]
 
 
-def render_chain(chain: list, variant: int, prefix: str) -> str:
-    """Source of the classes of one chain (without the import header)."""
+def render_chain(chain: list, variant: int, prefix: str, outer: str | None = None, only=None) -> str:
+    """Source of the classes of one chain (without the import header).  `outer`: "plain"/"hand" nests them in an outer
+    class (with a hand-written __init__ for "hand"); `only` = range of class indices to render (two-package layout)."""
     sp = SPELL[variant]
     names = class_names(prefix, len(chain))
     out = []
     for i, cls in enumerate(chain):
+        if only is not None and i not in only:
+            continue
         h = cls["hdr"]
         if h["dc"]:
             args = []
@@ -122,13 +125,20 @@ def render_chain(chain: list, variant: int, prefix: str) -> str:
             body = ["pass"]
         out += ["    " + line for line in body]
         out.append("")
-    if variant == 3:
-        out = [f"class O{prefix}:"] + ["    " + line if line else line for line in out]
+    if outer:
+        init = ["    def __init__(self, q):", "        pass", ""] if outer == "hand" else []
+        out = [f"class O{prefix}:"] + init + ["    " + line if line else line for line in out]
     return "\n".join(out) + "\n"
 
 
-def outer_name(prefix: str, variant: int) -> str | None:
-    return f"O{prefix}" if variant == 3 else None
+def layout(case: dict, variant: int) -> tuple:
+    """(outer kind or None, split) the program is rendered with: the spec's `outer` / `split`; spelling 3 nests
+    module-level single-package programs in an outer class without __init__."""
+    split = case.get("split", 0)
+    outer = case.get("outer", "none")
+    if outer == "none":
+        outer = "plain" if (variant == 3 and split == 0) else None
+    return outer, split
 
 
 # ---- projections --------------------------------------------------------------------------------
@@ -177,20 +187,27 @@ def project_griffe(gcls) -> dict:
     }
 
 
-def exec_chain(src: str, modname: str, names: list[str], outer: str | None = None):
-    """Execute the source as a real module (registered in sys.modules: dataclasses needs that to read string
-    annotations).  Returns (list of projections, None) or (None, exception)."""
-    mod = types.ModuleType(modname)
-    sys.modules[modname] = mod
+def exec_chain(sources: list[str], modname: str, names: list[str], outer: str | None = None):
+    """Execute the source(s) as real modules (registered in sys.modules: dataclasses needs that to read string
+    annotations; with two sources the second one imports the classes of the first, `@A@` stands for its name).
+    Returns (list of projections, None) or (None, exception)."""
+    mods = []
     try:
-        try:
-            exec(compile(src, modname + ".py", "exec", dont_inherit=True), mod.__dict__)  # noqa: S102
-        except TypeError as exc:
-            return None, exc
-        scope = mod.__dict__[outer].__dict__ if outer else mod.__dict__
+        scope: dict = {}
+        for n, src in enumerate(sources):
+            name = modname + "ab"[n]
+            mod = types.ModuleType(name)
+            sys.modules[name] = mod
+            mods.append(name)
+            try:
+                exec(compile(src.replace("@A@", modname + "a"), name + ".py", "exec", dont_inherit=True), mod.__dict__)  # noqa: S102
+            except TypeError as exc:
+                return None, exc
+            scope.update(mod.__dict__[outer].__dict__ if outer else mod.__dict__)
         return [project_cpython(scope[n]) for n in names], None
     finally:
-        sys.modules.pop(modname, None)
+        for name in mods:
+            sys.modules.pop(name, None)
 
 
 # ---- judging one case ---------------------------------------------------------------------------
@@ -239,7 +256,8 @@ def judge(case: dict, variant: int, src: str, greal, preal, perr, fixed=(), load
     elif perr is None:
         return [("die", f"spec says CPython raises TypeError, it accepted the program\n{src}")]
     # -- Griffe must at least load the program
-    base = {"tags": tags, "variant": variant, "wf": case["wf"], "load": load}
+    base = {"tags": tags, "variant": variant, "wf": case["wf"], "load": load,
+            "outer": case.get("outer", "none"), "packages": 2 if case.get("split", 0) else 1}
     if isinstance(greal, BaseException):
         return [("viol", dict(base, clause="total", explained=False), f"static loading raised {greal!r} on\n{src}")]
     if not case["wf"]:
@@ -283,24 +301,35 @@ def _clear_cache():
         pass
 
 
-def load_history(griffe, directory: str, modname: str, header: str, sources: list[str], nloads: int = 1, style: int = 0) -> list:
-    """Write the module and load it `nloads` times the way Dataclass.tla's LoadAgain says: the extension instances of
-    the first load live on.  Load 1: griffe.load (nloads = 1) or a GriffeLoader; later loads alternate between
-    `loader.load(...)` once more on the same loader and a new GriffeLoader built with `extensions=first.extensions`
-    (style picks which comes first).  Returns the module object of every load (each load builds a new tree)."""
-    with open(os.path.join(directory, modname + ".py"), "w") as fh:
+def load_history(griffe, directory: str, modname: str, header: str, sources: list[str], nloads: int = 1, style: int = 0,
+                 sources_b: list[str] | None = None, imports_b: str = "") -> list:
+    """Write the module(s) and load them the way Dataclass.tla says.  One package: module `modname`; two packages
+    (`sources_b`): `<modname>a` is loaded first, then `<modname>b` (which imports the classes of the first) BY THE SAME
+    LOADER (NextPackage: fresh `processed`, same functools.cache).  `nloads` > 1 (LoadAgain): the extension instances of
+    the first load live on; later loads alternate between `loader.load(...)` once more on the same loader and a new
+    GriffeLoader built with `extensions=first.extensions` (style picks which comes first).
+    Returns, per load, the pair (module object of the first package, module object of the second one or None)."""
+    names = [modname] if sources_b is None else [modname + "a", modname + "b"]
+    with open(os.path.join(directory, names[0] + ".py"), "w") as fh:
         fh.write(header + "\n" + "\n".join(sources))
+    if sources_b is not None:
+        with open(os.path.join(directory, names[1] + ".py"), "w") as fh:
+            fh.write(header + imports_b.replace("@A@", names[0]) + "\n" + "\n".join(sources_b))
+
+    def both(loader):
+        a = loader.load(names[0])
+        return (a, loader.load(names[1]) if sources_b is not None else None)
+
     try:
-        if nloads == 1:
-            return [griffe.load(modname, search_paths=[directory], allow_inspection=False)]
+        if nloads == 1 and sources_b is None:
+            return [(griffe.load(modname, search_paths=[directory], allow_inspection=False), None)]
         first = griffe.GriffeLoader(search_paths=[directory], allow_inspection=False)
-        mods = [first.load(modname)]
+        mods = [both(first)]
         for n in range(2, nloads + 1):
             if (n + style) % 2 == 0:
-                mods.append(first.load(modname))
+                mods.append(both(first))
             else:
-                other = griffe.GriffeLoader(extensions=first.extensions, search_paths=[directory], allow_inspection=False)
-                mods.append(other.load(modname))
+                mods.append(both(griffe.GriffeLoader(extensions=first.extensions, search_paths=[directory], allow_inspection=False)))
         return mods
     finally:
         _clear_cache()
@@ -324,37 +353,59 @@ def replay_chunk(job) -> dict:
     events = []
     groups: dict = {}
     for idx, (case, variant) in enumerate(items):
-        groups.setdefault((variant, case.get("loads", 1)), []).append((idx, case))
+        groups.setdefault((variant, case.get("loads", 1), case.get("split", 0) > 0), []).append((idx, case))
     samples = []
-    for (variant, nloads), group in groups.items():
+    for (variant, nloads, two), group in groups.items():
         header = HEADERS[variant]
-        srcs = {idx: render_chain(case["chain"], variant, f"K{idx}") for idx, case in group}
-        modname = f"c18_{cid}_{variant}_{nloads}"
         style = (cid if isinstance(cid, int) else 0) % 2
+        modname = f"c18_{cid}_{variant}_{nloads}" + ("_s" if two else "")
+        parts = {}       # idx -> (names, outer class name or None, source of package 1, source of package 2 or None)
+        for idx, case in group:
+            prefix = f"K{idx}"
+            names = class_names(prefix, len(case["chain"]))
+            outer, split = layout(case, variant)
+            if two:
+                parts[idx] = (names, None, render_chain(case["chain"], variant, prefix, None, range(0, split)),
+                              render_chain(case["chain"], variant, prefix, None, range(split, len(names))), names[:split])
+            else:
+                parts[idx] = (names, f"O{prefix}" if outer else None, render_chain(case["chain"], variant, prefix, outer), None, [])
+
+        def imports(idxs):
+            return "from @A@ import " + ", ".join(n for i in idxs for n in parts[i][4]) + "\n"
+
+        def history(idxs, name):
+            return load_history(griffe, directory, name, header, [parts[i][2] for i in idxs], nloads, style,
+                                [parts[i][3] for i in idxs] if two else None, imports(idxs) if two else "")
+
         try:
-            gmods = load_history(griffe, directory, modname, header, [srcs[idx] for idx, _ in group], nloads, style)
+            gmods = history([idx for idx, _ in group], modname)
         except Exception:  # noqa: BLE001  one program broke the loader: find it by loading one by one
             gmods = None
         for idx, case in group:
-            names = class_names(f"K{idx}", len(case["chain"]))
-            src = srcs[idx]
-            outer = outer_name(f"K{idx}", variant)
-            preal, perr = exec_chain(header + "\n" + src, f"c18x_{cid}_{variant}_{idx}", names, outer)
+            names, outer, src_a, src_b, _first = parts[idx]
+            src = src_a if not two else src_a + "# ---- second package: " + imports([idx]) + src_b
+            sources = [header + "\n" + src_a] + ([header + imports([idx]) + "\n" + src_b] if two else [])
+            preal, perr = exec_chain(sources, f"c18x_{cid}_{variant}_{idx}", names, outer)
             try:
-                mods = gmods if gmods is not None else load_history(griffe, directory, f"c18s_{cid}_{variant}_{idx}", header, [src], nloads, style)
+                mods = gmods if gmods is not None else history([idx], f"c18s_{cid}_{variant}_{idx}")
             except Exception as exc:  # noqa: BLE001
                 mods = [exc] * nloads
-            for n, mod in enumerate(mods, 1):
+            for n, pair in enumerate(mods, 1):
                 try:
-                    if isinstance(mod, BaseException):
-                        raise mod
-                    scope = mod.members[outer] if outer else mod
-                    greal = [project_griffe(scope.members[x]) for x in names]
+                    if isinstance(pair, BaseException):
+                        raise pair
+                    split = case.get("split", 0) if two else len(names)
+                    greal = []
+                    for pos, x in enumerate(names):
+                        mod = pair[0] if pos < split else pair[1]
+                        scope = mod.members[outer] if outer else mod
+                        greal.append(project_griffe(scope.members[x]))
                 except Exception as exc:  # noqa: BLE001
                     greal = exc
                 for e in judge(case_at_load(case, n), variant, src, greal, preal, perr, fixed, n):
                     if e[0] != "ok":
-                        events.append(({"chain": case["chain"], "variant": variant, "loads": nloads, "style": style}, *e))
+                        events.append(({"chain": case["chain"], "variant": variant, "loads": nloads, "style": style,
+                                        "outer": case.get("outer", "none"), "split": case.get("split", 0)}, *e))
             if len(samples) < 2 and case["wf"] and len(case["chain"]) > 1 and not isinstance(greal, BaseException):
                 samples.append({"chain": case["chain"], "variant": variant, "loads": nloads, "source": src, "griffe": [strip(g) for g in greal]})
     return {"cid": cid, "n": len(items), "events": events, "samples": samples}
